@@ -249,6 +249,9 @@ def run(ck, F):
     # would share one location among all its uses, and an unrelated request could rewrite what a unit prints)
     import borrow as _borrow
     _borrow.borrow(ck, F, 'C05', 'C17', {'make-is-fresh'})
+    # what is printed for a word is the word (not the bytes that happen to follow it in the arena)
+    import c18 as _c18
+    _c18.c_string_insertions(ck, F, 'C17')
 
     # ---------------------------------------------------------------- printer state / graph untouched
     R5 = ck.rule('C17.printer-state', 'the Printer constructor initialises every data member; printer functions never cast away '
